@@ -16,7 +16,10 @@ def main():
     old = open(os.path.join(D, "README.md")).read()
     tail = old[old.index(MARK):]
     names = sorted(n for n in os.listdir(D) if os.path.isfile(os.path.join(D, n, "meta.json")))
-    strengthened = sum(1 for l in tail.splitlines() if l.startswith("* **"))
+    # (a bullet may name several changes: "* **C10-u**, **C10-v** - ...")
+    import re
+
+    strengthened = len({n for l in tail.splitlines() if l.startswith("* **") and "not caught" not in l.split(":")[0] for n in re.findall(r"\*\*(C\d\d-[a-z]+)\*\*", l.split(" - ")[0])})
     rows = []
     for n in names:
         m = json.load(open(os.path.join(D, n, "meta.json")))
